@@ -668,6 +668,21 @@ def form_signature(text):
     return None
 
 
+def has_duplicate_keys(text):
+    dup = []
+
+    def hook(pairs):
+        ks = [k for k, _ in pairs]
+        if len(set(ks)) != len(ks):
+            dup.append(1)
+        return dict(pairs)
+    try:
+        json.loads(text.decode('utf-8', 'surrogateescape'), object_pairs_hook=hook)
+    except (ValueError, AttributeError):
+        return False
+    return bool(dup)
+
+
 def lark_signature(s, res, feats):
     """which of the known limitations of the repository's parser explains that the printed type string s does not
     come back (feats: features of the type computed by the model's runner from the type itself); None = none does"""
@@ -851,8 +866,13 @@ def run(cases, tier, rng):
                 problems.append(('modeldiff', '%s JSON differs%s: implementation %r, model %r' % (
                     key, ' in formatting only' if same else '', b(I, key), b(M, key)), None, 'corr:form-json'))
         # Form -> JSON -> Form
-        rt_ok = (b(I, 'form2') == b(I, 'form') and I.get('equal') == ['11'] and b(I, 'formv2') == b(I, 'form')
-                 and I.get('equalv') == ['1'] and b(I, 'ftype2') == b(I, 'ftype'))
+        rt_ok = (b(I, 'form2') == b(I, 'form') and b(I, 'formv2') == b(I, 'form') and b(I, 'ftype2') == b(I, 'ftype'))
+        if rt_ok and (I.get('equal') != ['11'] or I.get('equalv') != ['1']):
+            if has_duplicate_keys(b(I, 'form')):
+                # RecordForm::equal looks fields up by name: with a repeated field name it is not even reflexive
+                stats['equal_skipped_duplicate_record_keys'] = stats.get('equal_skipped_duplicate_record_keys', 0) + 1
+            else:
+                rt_ok = False
         m_rt = M.get('rt') == ['11']
         m_wf = M.get('wf') == ['1']
         if m_wf and not m_rt:
@@ -873,8 +893,9 @@ def run(cases, tier, rng):
                                      b(I, 'form'), b(I, 'form2'), I.get('equal'), b(I, 'formv2'), I.get('equalv'),
                                      b(I, 'ftype2'), 'ok' if m_rt else 'failure'), sig, 'corr:form-json'))
         elif not m_rt:
-            problems.append(('modeldiff', 'model predicts a Form -> JSON -> Form failure the implementation does not have',
-                             None, 'corr:form-json'))
+            # only outside form_wf (checked above): the model compares forms structurally, Form::equal and the JSON
+            # text do not show e.g. an itemsize that contradicts the format of a NumpyForm printed as "bool"
+            stats['roundtrip_outside_fragment'] += 1
         # ---------------- depth queries
         idepths = [I.get('fdepth')] + ([I.get('depth')] if kind != 'form' else [])
         if kind != 'form' and I.get('depth') != I.get('fdepth'):
